@@ -11,7 +11,6 @@ import (
 
 type (
 	WaitGroup = sync.WaitGroup
-	Once      = sync.Once
 	Pool      = core.Pool
 	Map       = sync.Map
 	Locker    = sync.Locker
@@ -28,6 +27,25 @@ func (errHeld) LockHeld() {}
 
 func (errHeld) Error() string {
 	return "ssync: lock still held although no simulated thread is running (a Lock without Unlock)"
+}
+
+// Once is a model of sync.Once over the simulated Mutex: the function may contain scheduling
+// points, and a thread parked at one inside the real Once would hold its real mutex, on which a
+// second caller would block for real (the simulator would hang).  The happens-before edge (the
+// function's return before any Do's return) comes from the mutex.  As with the real one, a Do
+// whose function panics counts as done.
+type Once struct {
+	m    Mutex
+	done bool
+}
+
+func (o *Once) Do(f func()) {
+	o.m.Lock()
+	defer o.m.Unlock()
+	if !o.done {
+		defer func() { o.done = true }()
+		f()
+	}
 }
 
 type Mutex struct {
@@ -174,4 +192,40 @@ type Cond = sync.Cond
 
 func NewCond(l Locker) *Cond { return sync.NewCond(l) }
 
-func OnceFunc(f func()) func() { return sync.OnceFunc(f) }
+func OnceFunc(f func()) func() {
+	g := OnceValue(func() struct{} { f(); return struct{}{} })
+	return func() { g() }
+}
+
+// OnceValue and OnceValues as in sync (go 1.21), over the modelled Once.
+func OnceValue[T any](f func() T) func() T {
+	var o Once
+	var v T
+	var p any
+	ok := false
+	return func() T {
+		o.Do(func() {
+			defer func() {
+				if !ok {
+					p = recover()
+					panic(p)
+				}
+			}()
+			v = f()
+			ok = true
+		})
+		if !ok {
+			panic(p)
+		}
+		return v
+	}
+}
+
+func OnceValues[T1, T2 any](f func() (T1, T2)) func() (T1, T2) {
+	type pair struct {
+		a T1
+		b T2
+	}
+	g := OnceValue(func() pair { a, b := f(); return pair{a, b} })
+	return func() (T1, T2) { p := g(); return p.a, p.b }
+}
